@@ -102,3 +102,46 @@ Section Spec.
 
   Definition spec_b : bool := sound_b && skip_b && retry_b && raises_b.
 End Spec.
+
+(* ---------------------------------------------------------------------------------------------- *)
+(* Stage 5: "while the checksum is available" as a fact about the SERVER, not about what the call
+   chose to ask.
+
+   [Sound] above takes the published checksum of a varying world from the answers that were actually
+   served; an implementation that does not ASK (a negative cache, a stale memo, a swallowed
+   short-cut) has served answers that say "unavailable" although the server holds the checksum ready.
+   [SoundFinal] reads availability off the world: let k be the number of checksum GETs the server saw
+   before the LAST data GET (0 when no data GET was made) -- the k-th checksum answer is the one the
+   server gives (or would give) to the first checksum request after the file took its final content.
+   If the call returns normally and that answer publishes c, the file has MD5 c.  In a world whose
+   checksum URL answers the same way every time this is [Sound]; the unchanged download_file meets it
+   in every world, because it asks exactly once after each 200 body (theorem C20_sound_final). *)
+
+Fixpoint sums_before_last_data (t : list ev) (seen : nat) (res : nat) : nat :=
+  match t with
+  | [] => res
+  | EvSum :: r => sums_before_last_data r (S seen) res
+  | EvData :: r => sums_before_last_data r seen seen
+  end.
+Definition k_final (o : result) : nat := sums_before_last_data (r_trace o) 0 0.
+
+Section Spec5.
+  Variable md5 : Z -> Z.
+  Variable w : world.
+  Variable o : result.
+
+  Definition SoundFinal : Prop :=
+    returned (r_out o) = true ->
+    forall c, wsum w (k_final o) = Sum c -> exists b, r_file o = Some b /\ md5 b = c.
+
+  Definition sound_final_b : bool :=
+    if returned (r_out o) then
+      match wsum w (k_final o) with
+      | Sum c => match r_file o with Some b => md5 b =? c | None => false end
+      | CNone => true
+      end
+    else true.
+
+  Definition Spec5 : Prop := Spec md5 w o /\ SoundFinal.
+  Definition spec5_b : bool := spec_b md5 w o && sound_final_b.
+End Spec5.
